@@ -2130,8 +2130,10 @@ WUR iwrc _lx_sblk_cmp_key(struct iwlctx *lx, struct sblk *sblk, int *resp) {
   if (dbflg & IWDB_COMPOUND_KEYS) {
     ksize += IW_VNUMSIZE(key->compound);
   }
+  // With compound keys the cached prefix holds the compound part of the STORED key, whose encoded size may
+  // differ from the one of the looked up key: a length test against the prefix is not conclusive then.
   if (  (sblk->flags & SBLK_FULL_LKEY)
-     || (ksize < lkl)
+     || (!(dbflg & IWDB_COMPOUND_KEYS) && (ksize < lkl))
      || (dbflg & (IWDB_VNUM64_KEYS | IWDB_REALNUM_KEYS))) {
     res = _cmp_keys(dbflg, sblk->lk, lkl, key);
   } else {
